@@ -1831,6 +1831,46 @@ func ruleLimitGuard(p *Prog, r *Result) {
 		}
 	}
 	r.floor("limit typestate obligations", n, 12)
+	// the offset is applied once, and alike in both modes: along Next and along Batch (the method and what it calls
+	// on the same plan) the same number of functions read the plan's Start. A skip moved into the shared preparation
+	// and left in one of the two twins skips twice there
+	for _, tn := range []string{"FinalLimitPlan", "LimitPlan", "AggregatePlan"} {
+		t := p.Named(tn)
+		if t == nil {
+			continue
+		}
+		readers := func(mn string) []string {
+			m := p.Method(t, mn)
+			if m == nil {
+				return nil
+			}
+			var out []string
+			for _, f := range p.staticClosure(m, 3, func(c *ssa.Function) bool {
+				return c.Signature.Recv() == nil || namedOf(deref(c.Signature.Recv().Type())) != t
+			}) {
+				reads := false
+				allInstrs(f, func(in ssa.Instruction) {
+					if u, ok := in.(*ssa.UnOp); ok {
+						if fa, ok := u.X.(*ssa.FieldAddr); ok {
+							if o, fl, _, ok := fieldOfAddr(fa); ok && o != nil && o.Obj().Name() == tn && (fl == "Start" || fl == "Offset") {
+								reads = true
+							}
+						}
+					}
+				})
+				if reads {
+					out = append(out, f.Name())
+				}
+			}
+			sort.Strings(out)
+			return out
+		}
+		nx, bt := readers("Next"), readers("Batch")
+		if len(nx) == 0 && len(bt) == 0 {
+			continue
+		}
+		r.add(len(nx) == len(bt), tn+"|offset-once", p.Pos(t.Obj().Pos()), fmt.Sprintf("the offset is read by %v along Next and by %v along Batch: the same number of places in both modes", nx, bt))
+	}
 	// the two numbers of `limit s, n` are the user's: each can be the largest integer (`limit 1, 9223372036854775807`
 	// is the only way to say `everything from row s on`), so their sum is never formed - it wraps around to a
 	// negative window end. Counters are compared with each of them separately
